@@ -32,16 +32,17 @@ func init() {
 
 	kit.Register(&kit.Check{
 		Prop: "C20", Name: "pool", World: "POOL", Level: "exploration",
-		Rule: "one run = one real core.TxPool with per-run scaled-down limits (AccountSlots 1-4, GlobalSlots 2-12, AccountQueue 1-5, GlobalQueue 2-40, Lifetime, PriceLimit, " +
-			"PriceBump, NoLocals, preset Locals) over real StateDBs of a generated block tree, inside a synctest bubble, driven by 20-300 seeded operations: local/remote, " +
+		Rule: "one run = one real core.TxPool with per-run scaled-down limits (AccountSlots 1-4, GlobalSlots 2-12, AccountQueue 1-5, GlobalQueue 2-12 or accounts*AccountQueue+1, Lifetime 90s-3h, " +
+			"PriceLimit, PriceBump, NoLocals, preset Locals) over real StateDBs of a generated block tree, inside a synctest bubble, driven by 1-120 (thorough: 1-300) seeded operations: local/remote, " +
 			"single/batched, sync/async submissions (AddRemotes, AddLocal, AddLocals, AddRemotesSync, AddRemote) of next-nonce, replacing (sufficient and insufficient bump), " +
 			"gapped, duplicate, stale, unaffordable, over-gas-limit, cheap, low-gas, wrong-network, bad-signature, oversized and heavy transactions; head changes (extension by 1-3 " +
 			"blocks, forks 1-3 deep onto a longer branch) whose blocks contain pool and foreign transactions, credits and gas-limit changes, so nonces and balances rise and fall " +
 			"and dropped transactions are re-injected; SetGasPrice; clock advances up to beyond Lifetime. Schedule fault: the background runReorg goroutine parks at gate H4 and " +
-			"the chooser decides after every foreground operation whether it runs now or stays parked while further operations are batched behind it. After every stimulus the " +
-			"bubble is brought to quiescence and the exported views (Pending, Content, Stats, Nonce, Get, Status, Locals) are checked against the real head state: structural " +
-			"invariants always (relative to the head the pool has adopted), limits whenever no reorg request is outstanding. A run is non-trivial when a reorg was held across " +
-			"an operation, requests were batched, a fork happened or the clock jumped.",
+			"the chooser decides after every foreground operation whether it runs now or stays parked while further operations (and sync callers) pile up behind it. After every stimulus the " +
+			"bubble is brought to quiescence and the exported views (Pending, Content, Stats, TransactionsNumber, Nonce, Get, Status, Locals) are checked against the real head state: structural " +
+			"invariants always (relative to the head the pool has adopted), limits whenever no reorg request is outstanding. A run ends early at the first reorg that leaves the queue at " +
+			"GlobalQueue (truncateQueue may then have broken heartbeat ties in map order). A run is non-trivial when a reorg was held across an operation, requests were batched, a fork " +
+			"happened or the clock jumped by a minute or more.",
 		Real: []string{"core.TxPool (tx_pool.go: add, enqueueTx, promoteExecutables, demoteUnexecutables, reset, truncatePending, truncateQueue, scheduleReorgLoop, runReorg, loop/eviction)",
 			"core txList/txSortedMap/txPricedList (tx_list.go)", "core txNoncer (tx_noncer.go)", "core/state StateDB over state.Database+MemDatabase", "core.StateProcessor converter routing + IntrinsicGas",
 			"event.Feed (chain head feed)", "types.YouSigner / secp256k1 signatures", "core senderCacher goroutines"},
@@ -53,10 +54,12 @@ func init() {
 			"reorgs onto a shorter or equally long branch: under ucon the canonical chain only moves to a longer one (blockchain.go insertChain); only longer branches are generated",
 			"reorgs deeper than 64 blocks (reset skips re-injection by design)",
 			"truly concurrent callers (data-race clause): all stimuli are serialised; only the order of runReorg relative to foreground operations is explored",
-			"NewTxsEvent subscribers (txFeed has no subscriber, so Send returns at once)"},
+			"NewTxsEvent subscribers (txFeed has no subscriber, so Send returns at once)",
+			"operation sequences continuing after a global-queue truncation: which account loses queued transactions there depends on Go map iteration order (tx_pool.go:1170-1176), so the run is checked at that point (everything except per-account queue content) and ended"},
 		Assumptions: []string{"limits are the ones the TxPoolConfig comments document: AccountQueue per non-local account, GlobalQueue unless only locals are left, GlobalSlots unless no non-local account exceeds its guaranteed AccountSlots",
 			"the pool's view may lag the chain head while a reset request is outstanding; structural invariants are then judged against the last head the pool adopted",
-			"gas prices are generated as level*8+account so that no two pooled transactions of different accounts tie on price (ties would make txPricedList.Discard depend on heap layout); after the first reorg that could have run truncateQueue on tied heartbeats the trace records inputs only (map-order dependence, DESIGN 2.10) while all invariants stay checked"},
+			"gas prices are generated as level*8+account so that no two pooled transactions of different accounts tie on price (ties would make txPricedList.Discard depend on heap layout and map order)",
+			"promotion liveness (an executable transaction left in the queue) and completeness of re-injection are not part of C20 and are only counted as reach probes"},
 		QuickBudget: 40 * time.Second, ThoroughBudget: 12 * time.Minute,
 		MinRuns:    50,
 		Exec:       runC20,
@@ -296,7 +299,7 @@ func (w *world) run() {
 	if w.r.Tier == "thorough" {
 		maxSteps = 300
 	}
-	steps := c.Range("steps", 20, maxSteps)
+	steps := c.Range("steps", 1, maxSteps)
 	held := 0
 	for i := 0; i < steps && !w.dead; i++ {
 		w.r.Steps++
